@@ -44,9 +44,13 @@ RULE = ('case i uses predefined class i mod 12 (graph classes with the Mermaid b
         'its own model plus 0-2 more, 8% of the cases with unhashable models, locked classes with per-model contexts '
         'and default PicklableLock or a recording user context as machine_context; prefix = add_model / remove_model '
         '/ events (trigger, may_trigger, event method); snapshot = pickle.loads(pickle.dumps(machine)), in 1/4 of '
-        'the locked cases taken while the machine lock is held; continuation of 1-6 events run on both copies and '
-        'compared per step (result / exception type, every model state, per-model callback logs incl. the '
-        'machine each callback saw, states/events/get_triggers, markup + Mermaid text, contexts entered); then '
+        'the locked cases taken while the machine lock is held, in 30% of the cases entered through a model '
+        '(pickle.dumps(model) or (model, machine)) instead of the machine; comparison right after the round trip, '
+        'then a continuation of 1-7 operations run on BOTH machines — events, add_model of a further model, '
+        'remove_model and a trigger through the removed model\'s stale helper, add_states/add_transition and the new '
+        'event — compared per step (result / exception type, every model state incl. removed models, per-model '
+        'callback logs incl. the machine each callback saw, states/events/get_triggers, markup + Mermaid text, '
+        'contexts entered); then '
         'different events, add_states, add_transition, add_model on either copy and lock probes across the copies. '
         'Non-trivial: the prefix contains >=1 event (the snapshot is not taken in the initial state) and the class '
         'owns an identity-keyed table (locked / graph / async with queued="model") or the machine has >=2 models; '
@@ -62,11 +66,14 @@ ASSUMPTIONS = [
     'the original\'s diagrams are regenerated (get_graph(force_new=True)) right after the snapshot: a regenerated graph '
     'carries no "previous transition" styling, which is the documented effect of dropping model_graphs',
     'keys of AsyncMachine._transition_queue_dict are read (read-only) through the private attribute',
+    'table operations AFTER the round trip (add_model / remove_model on the copy) are compared differentially with '
+    'the same operations on the original; the theorems cover the tables at the snapshot and the frame properties',
 ]
 THEOREMS = ['C15_hooks_table', 'C15_reachable_wf', 'C15_same', 'C15_same_run', 'C15_same_run_quiet',
             'C15_rekey_contexts', 'C15_pickles_always', 'C15_rekey_graphs', 'C15_locks_free', 'C15_fresh_identities', 'C15_frame',
             'C15_independent_run', 'C15_independent', 'C15_hold_independent', 'C15_envelope_inhabited',
-            'C15_locked_graph_rekeyed', 'C15_unhashable_pickles', 'C15_same_refuted_async_queue']
+            'C15_locked_graph_rekeyed', 'C15_unhashable_pickles', 'C15_same_refuted_async_queue',
+            'C15_via_model_nongraph', 'C15_via_model_graph', 'C15_via_model_refuted_graph']
 
 
 # ====================================================================== picklable user classes
@@ -246,12 +253,44 @@ def gen(rng, i, tier):
             prefix.append(['rm', t])
         else:
             prefix.append(ev())
-    cont = [ev() for _ in range(rng.randint(1, 6))]
+    # where unpickling enters: the machine, or one of its models (pickle.dumps(model) reaches the machine through
+    # the model's trigger partials), optionally wrapped as (model, machine)
+    entry, wrap = None, False
+    if rng.random() < 0.3:
+        t = rng.choice(live)
+        if not (selfmodel and t == 0):
+            entry, wrap = t, rng.random() < 0.3
+    # continuation on BOTH machines: events and reconfiguration (add_model of a further model, remove_model and
+    # a trigger through the removed model's stale helper, add_states / add_transition and the new event)
+    cont = []
+    removed = []
+    nz = 0
+    for _ in range(rng.randint(1, 7)):
+        x = rng.random()
+        if x < 0.13 and len(models) < 7:
+            t = new_model()
+            cont.append(['addm', t])
+            live.append(t)
+        elif x < 0.22 and len(live) > 1:
+            t = rng.choice([t for t in live if not (selfmodel and t == 0)])
+            live.remove(t)
+            removed.append(t)
+            cont.append(['rmm', t])
+        elif x < 0.32 and removed:
+            cont.append(['stale', rng.choice(removed), rng.randrange(nev)])
+        elif x < 0.40:
+            cont.append(['addst', nz])
+            nz += 1
+        elif x < 0.48 and nz:
+            cont.append(['evz', rng.choice(live), rng.randrange(nz)])
+        else:
+            cont.append(ev())
     diva = [ev() for _ in range(rng.randint(1, 3))]
     divb = [ev() for _ in range(rng.randint(1, 3))]
     return dict(cls=cname, shape=shape, machine=machine, env=env, init=g['init'], raises=raises, qmode=qmode,
                 selfmodel=selfmodel, userctx=userctx, models=models, prefix=prefix,
-                hold=bool(locked and not userctx and rng.random() < 0.25), cont=cont, diva=diva, divb=divb)
+                hold=bool(locked and not userctx and rng.random() < 0.25), cont=cont, diva=diva, divb=divb,
+                entry=entry, wrap=wrap)
 
 
 # ====================================================================== encoding for the model
@@ -290,8 +329,9 @@ def enc(case):
             script.append([0, 10 + op[1], [2 + op[1]] if (locked and m['ctx']) else []])
         elif op[0] == 'rm':
             script.append([1, 10 + op[1]])
+    entry = case.get('entry')
     return [[graph, nested, locked, is_async], case['qmode'] == 'model', mctx, wmodels, wlocks, script,
-            100, 100, len(case['cont']), NFLAGS, NINDEP]
+            100, 100, 1 + len(case['cont']), NFLAGS, NINDEP, [] if entry is None else [10 + entry]]
 
 
 # ====================================================================== implementation side
@@ -315,6 +355,44 @@ class Side(object):
         self.graph = 'Graph' in case['cls']
         self.locked = 'Locked' in case['cls']
         self.nested = 'Hierarchical' in case['cls']
+        self.removed = {}            # tag -> model removed after the snapshot (keeps its stale helpers)
+        self.journal_obj = None      # the machine-wide journal list of THIS machine
+
+    def step(self, op):
+        """one operation of the continuation (the same on original and copy)"""
+        k = op[0]
+        case = self.case
+        if k == 'ev':
+            return self.event(op)
+        if k == 'addm':
+            mod = _new_model(case, op[1], self.journal_obj, self.m)
+            if self.locked and case['models'][op[1]]['ctx']:
+                ctx = [RecCtx(2 + op[1], self.journal_obj)]
+                return self.call(lambda: self.m.add_model(mod, model_context=ctx))
+            return self.call(lambda: self.m.add_model(mod))
+        if k == 'rmm':
+            mod = self.by_tag(op[1])
+            if mod is None:
+                return [2, 'no-model']
+            self.removed[op[1]] = mod
+            return self.call(lambda: self.m.remove_model(mod))
+        if k == 'stale':
+            mod = self.removed.get(op[1])
+            if mod is None:
+                return [2, 'no-model']
+            return self.call(lambda: mod.trigger('e%d' % op[2]))
+        if k == 'addst':
+            src = list(self.m.states.keys())[0]
+            sname, ename = 'zz%d' % op[1], 'ez%d' % op[1]
+            return [self.call(lambda: self.m.add_states([sname])),
+                    self.call(lambda: self.m.add_transition(ename, src, sname)),
+                    self.call(lambda: self.m.add_transition(ename, sname, src))]
+        if k == 'evz':
+            mod = self.by_tag(op[1])
+            if mod is None:
+                return [2, 'no-model']
+            return self.call(lambda: mod.trigger('ez%d' % op[2]))
+        return [2, 'unknown-op']
 
     def models(self):
         return list(self.m.models)
@@ -347,6 +425,8 @@ class Side(object):
         return self.call(lambda: getattr(mod, name)())
 
     def journal(self):
+        if self.journal_obj is not None:
+            return list(self.journal_obj)
         ms = self.m.models
         return list(ms[0].c15_journal) if ms else []
 
@@ -389,8 +469,9 @@ class Side(object):
         return out
 
     def full(self):
-        return [[_canon_state(getattr(mod, 'state', None)) for mod in self.m.models],
-                [list(mod.c15_log) for mod in self.m.models],
+        gone = [self.removed[t] for t in sorted(self.removed)]
+        return [[_canon_state(getattr(mod, 'state', None)) for mod in list(self.m.models) + gone],
+                [list(mod.c15_log) for mod in list(self.m.models) + gone],
                 [mod.c15_tag for mod in self.m.models],
                 self.structure(), self.pictures()]
 
@@ -427,6 +508,13 @@ def _classify(keys, new_models, old_models):
     return out
 
 
+def _styles(graph):
+    cs = getattr(graph, 'custom_styles', {})
+    node = {str(k): v for k, v in dict(cs.get('node', {})).items() if v}
+    edge = {str(k): {str(k2): v2 for k2, v2 in dict(v).items() if v2} for k, v in dict(cs.get('edge', {})).items()}
+    return [sorted(node.items()), sorted((k, sorted(v.items())) for k, v in edge.items() if v)]
+
+
 def _qkeys(machine):
     d = getattr(machine, '_transition_queue_dict', None)
     return list(d.keys()) if type(d) is dict else []
@@ -451,13 +539,15 @@ def _build(case):
         machine, _ = flat.build_machine(like, world, cls=cls, model=model_arg, extra_kwargs=kw)
     if case['selfmodel']:
         machine.c15_setup(0, case['env'], case['raises'], is_async, journal)
+        machine.c15_machine = machine
     return machine, journal
 
 
-def _new_model(case, tag, journal):
+def _new_model(case, tag, journal, machine):
     md = case['models'][tag]
     mod = PModel() if md['hashable'] else UModel()
     mod.c15_setup(tag, case['env'], case['raises'], 'Async' in case['cls'], journal)
+    mod.c15_machine = machine        # lets the harness find the copy's machine from an unpickled model
     return mod
 
 
@@ -518,7 +608,7 @@ def _impl_c15(case):
     keep_alive = []
     for op in case['prefix']:
         if op[0] == 'add':
-            mod = _new_model(case, op[1], journal)
+            mod = _new_model(case, op[1], journal, machine)
             md = case['models'][op[1]]
             try:
                 if locked and md['ctx']:
@@ -537,16 +627,29 @@ def _impl_c15(case):
         else:
             A.event(op)
     # ---------------------------------------------------------------- snapshot
+    entry = case.get('entry')
+    ent = A.by_tag(entry) if entry is not None else None
+    target = machine if ent is None else ((ent, machine) if case.get('wrap') else ent)
     try:
         if case['hold'] and locked:
             with machine.machine_context[0]:
-                data = pickle.dumps(machine)
+                data = pickle.dumps(target)
         else:
-            data = pickle.dumps(machine)
-        machine2 = pickle.loads(data)
+            data = pickle.dumps(target)
+        loaded = pickle.loads(data)
     except TypeError:
         return [1, hooks, [0]]
+    entry_ok = True
+    if ent is None:
+        machine2 = loaded
+    else:
+        ent2 = loaded[0] if case.get('wrap') else loaded
+        machine2 = ent2.c15_machine
+        entry_ok = (any(x is ent2 for x in machine2.models) and ent2.c15_tag == entry
+                    and (not case.get('wrap') or loaded[1] is machine2))
+    A.journal_obj = journal
     B = Side(case, machine2)
+    B.journal_obj = machine2.models[0].c15_journal if machine2.models else []
     om, nm = A.models(), B.models()
     mctx1 = list(getattr(machine, 'machine_context', []))
     mctx2 = list(getattr(machine2, 'machine_context', []))
@@ -554,7 +657,7 @@ def _impl_c15(case):
     cmap2 = getattr(machine2, 'model_context_map', {})
     all1 = set(id(c) for c in mctx1) | set(id(c) for l in cmap1.values() for c in l)
     all2 = set(id(c) for c in mctx2) | set(id(c) for l in cmap2.values() for c in l)
-    disjoint = (not (set(id(x) for x in om) & set(id(x) for x in nm))) and not (all1 & all2)
+    disjoint = (not (set(id(x) for x in om) & set(id(x) for x in nm))) and not (all1 & all2) and entry_ok
     graphs1 = getattr(machine, 'model_graphs', {})
     graphs2 = getattr(machine2, 'model_graphs', {})
     graph_ok = []
@@ -563,7 +666,8 @@ def _impl_c15(case):
             try:
                 ta = a.get_graph(force_new=True).source
                 tb = b.get_graph().source if id(b) in graphs2 else None
-                graph_ok.append(ta == tb)
+                # the rendered text may hide a missing 'active' style (compound states); compare the styles too
+                graph_ok.append(ta == tb and _styles(graphs1[id(a)]) == _styles(graphs2[id(b)]))
             except BaseException:  # noqa
                 graph_ok.append(False)
     else:
@@ -586,19 +690,17 @@ def _impl_c15(case):
     # ---------------------------------------------------------------- same continuation on both
     rows = []
     fa, fb = A.full(), B.full()
-    if fa != fb:
+    row = [True, fa[0] == fb[0] and fa[2] == fb[2], fa[1] == fb[1], fa[3] == fb[3], fa[4] == fb[4], True]
+    if not all(row):
         detail.append(['at-snapshot', fa, fb])
+    rows.append(row)                 # row 0: right after the round trip
     la, lb = len(A.journal()), len(B.journal())
-    first = True
     for op in case['cont']:
-        ra, rb = A.event(op), B.event(op)
+        ra, rb = A.step(op), B.step(op)
         ja, jb = A.journal()[la:], B.journal()[lb:]
         fa, fb = A.full(), B.full()
         la, lb = len(A.journal()), len(B.journal())
         row = [ra == rb, fa[0] == fb[0] and fa[2] == fb[2], fa[1] == fb[1], fa[3] == fb[3], fa[4] == fb[4], ja == jb]
-        if first and detail:
-            row[1] = False
-        first = False
         if not all(row):
             detail.append([op, ra, rb, fa, fb, ja, jb])
         rows.append(row)
@@ -657,25 +759,44 @@ def _impl_c15(case):
 
 
 # ====================================================================== canonical form, oracle, known findings
-def kf_class(case):
-    """the only known-finding class left: an async class with queued='model' (KF-C15-3).  KF-C15-1 (locked graph
-    classes) and KF-C15-2 (unhashable models in locked machines) are fixed in /repo (74ef53e, 3c0ca68) and are
-    ordinary in-envelope cases now."""
+def kf_classes(case):
+    """known-finding classes of a case (decidable from the case alone):
+    KF-C15-3  an async class with queued='model': the per-model queue table is not re-keyed;
+    KF-C15-4  a graph class pickled THROUGH one of its models (not the machine itself): the graph of that model's
+              copy styles no state as active until its next transition.
+    The former KF-C15-1 / KF-C15-2 are fixed in /repo (74ef53e, 3c0ca68) and are ordinary cases."""
     graph, nested, locked, is_async = _flags(case)
+    out = []
     if is_async and case['qmode'] == 'model':
-        return 'KF-C15-3'
-    return None
+        out.append('KF-C15-3')
+    if graph and case.get('entry') is not None and not (case['selfmodel'] and case['entry'] == 0):
+        out.append('KF-C15-4')
+    return out
+
+
+def kf_class(case):
+    ks = kf_classes(case)
+    return ks[0] if ks else None
 
 
 def canon(case, obs):
-    """the behaviour flags of the one class whose copy is known to be damaged are not compared
-    (KF-C15-3: every event on the copy raises KeyError); everything else is compared as it is"""
+    """behaviour flags that a known finding is known to spoil are not compared:
+    KF-C15-3: every event on the copy raises KeyError (the whole behaviour part);
+    KF-C15-4: the diagram of the entry model differs until its next transition (the markup/diagram flag)"""
     if not isinstance(obs, list) or len(obs) < 3 or not isinstance(obs[2], list) or obs[2][:1] != [1]:
         return obs
-    if kf_class(case) == 'KF-C15-3':
+    ks = kf_classes(case)
+    if 'KF-C15-3' in ks:
         obs = copy.deepcopy(obs)
         obs[2][2] = []
         return obs[:3]
+    if 'KF-C15-4' in ks:
+        obs = copy.deepcopy(obs)
+        beh = obs[2][2]
+        for row in beh[0]:
+            row[4] = True
+        if all(all(r) for r in beh[0]) and all(beh[1]):
+            return obs[:3]
     return obs
 
 
@@ -711,8 +832,15 @@ def failing_clauses(case, obs):
     if graph:
         if rekey[7] != want_keys:
             out.append('model_graphs of the copy keyed by the identities of its models')
-        if not all(rekey[8]) or len(rekey[8]) != n:
+        if len(rekey[8]) != n:
             out.append('graph of each model of the copy equals a regenerated graph')
+        else:
+            ent = case.get('entry')
+            others = [ok for t, ok in zip(live, rekey[8]) if t != ent]
+            if not all(others):
+                out.append('graph of each model of the copy equals a regenerated graph')
+            elif not all(rekey[8]):
+                out.append('graph of the model through which unpickling entered equals a regenerated graph')
     if is_async and case['qmode'] == 'model':
         if rekey[9] != want_keys or not all(rekey[10]):
             out.append('queue table of the copy keyed by the identities of its models')
@@ -722,7 +850,8 @@ def failing_clauses(case, obs):
         for i, row in enumerate(rows):
             for j, f in enumerate(row):
                 if not f:
-                    out.append('continuation step %d: %s differs between original and copy' % (i, names[j]))
+                    out.append('%s: %s differs between original and copy'
+                               % ('right after the round trip' if i == 0 else 'continuation step %d' % (i - 1), names[j]))
         inames = ['operations on the original changed the copy', 'operations on the copy changed the original',
                   'added states/events visible on the other machine', 'shared State/Event objects or a callback saw the other machine',
                   'lock held on the original blocks the copy', 'lock held on the copy blocks the original',
@@ -735,30 +864,40 @@ def failing_clauses(case, obs):
 
 KF_ALLOWED = {
     'KF-C15-3': {'queue table of the copy keyed by the identities of its models'},
+    'KF-C15-4': {'graph of the model through which unpickling entered equals a regenerated graph'},
 }
+
+
+def _allowed(case):
+    out = set()
+    for k in kf_classes(case):
+        out |= KF_ALLOWED[k]
+    return out
 
 
 def oracle(case, obs):
     f = failing_clauses(case, obs)
     if not f:
         return None
-    allowed = KF_ALLOWED.get(kf_class(case), set())
+    allowed = _allowed(case)
     fresh_failures = [x for x in f if x not in allowed]      # name a clause that is not a known finding first
     return (fresh_failures or f)[0]
 
 
 def classify_known(case, model_obs, impl_obs):
-    """KF-C15-3 and nothing else: the case is in that class, the implementation's observation equals the model's
-    (which reproduces the stale queue table) whenever the model's is available, and the ONLY failing clause of the
-    oracle is the queue-table clause.  A model/implementation disagreement is never classified as known."""
-    kf = kf_class(case)
-    if kf is None or isinstance(impl_obs, dict):
+    """a known finding is: the case is in a known-finding class, the implementation's observation equals the
+    model's (which reproduces the finding) whenever the model's is available, and every failing clause of the
+    oracle is one the finding explains.  A model/implementation disagreement is never classified as known."""
+    ks = kf_classes(case)
+    if not ks or isinstance(impl_obs, dict):
         return None
     if model_obs is not None and canon(case, model_obs) != canon(case, impl_obs):
         return None
     f = set(failing_clauses(case, canon(case, impl_obs)))
-    if f and f <= KF_ALLOWED[kf]:
-        return kf
+    if f and f <= _allowed(case):
+        for k in ks:
+            if f & KF_ALLOWED[k]:
+                return k
     return None
 
 
@@ -793,9 +932,13 @@ def stats(case, obs, dist):
     inc('queued_%s' % case['qmode'])
     inc('prefix_events', sum(1 for op in case['prefix'] if op[0] == 'ev'))
     inc('continuation_events', len(case['cont']))
-    kf = kf_class(case)
-    if kf:
+    for kf in kf_classes(case):
         inc('class_of_' + kf)
+    if case.get('entry') is not None:
+        inc('pickled_through_a_model' + ('_wrapped' if case.get('wrap') else ''))
+    for op in case['cont']:
+        if op[0] != 'ev':
+            inc('continuation_' + op[0])
     if isinstance(obs, list) and len(obs) >= 3 and obs[2][:1] == [0]:
         inc('pickling_raised')
 
